@@ -13,18 +13,25 @@ Thin(S) == IF Cardinality(S) <= MaxBase THEN S
            ELSE LET s == SetToSeq(S)  step == (Len(s) + MaxBase - 1) \div MaxBase
                 IN { s[i] : i \in { j \in 1..Len(s) : j % step = (Cur.case % step) } }
 
-\* host flags: forwarded, to host, from host; pre-NAT destination variants only matter when some tier is
-\* matched against the pre-NAT destination (pre-DNAT tiers, or untracked policy in an XDP program)
+\* host flags: forwarded, to host, from host.  When some tier is matched against the pre-NAT destination
+\* (pre-DNAT tiers, or untracked policy in an XDP program) the packet is also tried with DNAT in effect, in
+\* both roles: p's destination as the pre-NAT one with another probe's destination after NAT, and vice versa.
+Flags == { <<FALSE, FALSE>>, <<TRUE, FALSE>>, <<FALSE, TRUE>> }
 Variants(p, others, usesPre) ==
-    { p @@ [preDst |-> pd.dst, preDport |-> pd.dport, toHost |-> f[1], fromHost |-> f[2]] :
-        pd \in (IF usesPre THEN {p} \cup others ELSE {p}),
-        f \in { <<FALSE, FALSE>>, <<TRUE, FALSE>>, <<FALSE, TRUE>> } }
+    { p @@ [preDst |-> p.dst, preDport |-> p.dport, toHost |-> f[1], fromHost |-> f[2]] : f \in Flags }
+    \cup (IF ~usesPre THEN {} ELSE
+           { p @@ [preDst |-> q.dst, preDport |-> q.dport, toHost |-> f[1], fromHost |-> f[2]] : q \in others, f \in {<<FALSE, FALSE>>, <<TRUE, FALSE>>} }
+           \cup { [p EXCEPT !.dst = q.dst, !.dport = q.dport] @@ [preDst |-> p.dst, preDport |-> p.dport, toHost |-> f[1], fromHost |-> f[2]]
+                   : q \in others, f \in {<<FALSE, FALSE>>, <<TRUE, FALSE>>} })
 
 CaseProbes(c) ==
     LET base == Thin(RulesProbes(AllRules(c.cfg), c.cfg.ipv, c.sets))
         \* a few alternative pre-NAT destinations taken from the probes themselves
-        alt == IF Cardinality(base) <= 3 THEN base
-               ELSE LET s == SetToSeq(base) IN { s[1], s[(Len(s) + 1) \div 2], s[Len(s)] }
+        \* alternative destinations: one probe per distinct destination port (at most 4), so that DNAT changes the port
+        dports == { q.dport : q \in base }
+        dsel == IF Cardinality(dports) <= 4 THEN dports
+                ELSE LET s == SetToSeq(dports) IN { s[1], s[2], s[(Len(s) + 1) \div 2], s[Len(s)] }
+        alt == { CHOOSE q \in base : q.dport = d : d \in dsel }
         blank == [ipv |-> c.cfg.ipv, proto |-> 6, src |-> DefaultSrc(c.cfg.ipv), dst |-> DefaultDst(c.cfg.ipv),
                   sport |-> 1024, dport |-> 1024, icmpType |-> 0, icmpCode |-> 0]
         pkts == IF base = {} THEN {blank} ELSE base
